@@ -28,6 +28,10 @@ type c13Req struct {
 	Done    int   `json:"done"`
 	Points  int   `json:"points"`
 	DelayUs int   `json:"delay_us"`
+	// Fault is set when the request was not delivered (undelivered-slice
+	// scenario, c13_fault.go); its timestamps still belong to the grid the
+	// client asked for.
+	Fault string `json:"fault,omitempty"`
 }
 
 type c13RepLog struct {
@@ -43,6 +47,11 @@ type c13Live struct {
 	reps  map[string]*c13RepLog
 	conns map[net.Conn]struct{}
 	seq   int
+	// undelivered-slice scenario: slices already failed once, and the signal
+	// "a held slice has arrived" for the caller-cancel kind
+	faulted map[string]bool
+	faultOn bool
+	held    chan int64
 }
 
 func (l *c13Live) rep(expr string) *c13RepLog {
@@ -89,7 +98,7 @@ func (s *c13Server) Close() { s.srv.Close() }
 
 // register makes the server answer for one case under its own URI prefix.
 func (s *c13Server) register(cs *c13Case) (uri string, live *c13Live, id string) {
-	live = &c13Live{cs: cs, reps: map[string]*c13RepLog{}, conns: map[net.Conn]struct{}{}}
+	live = &c13Live{cs: cs, reps: map[string]*c13RepLog{}, conns: map[net.Conn]struct{}{}, faulted: map[string]bool{}, held: make(chan int64, 64)}
 	for _, sr := range cs.Series {
 		live.ivs = append(live.ivs, c13Normalise(sr.Intervals))
 	}
@@ -254,23 +263,41 @@ func (s *c13Server) handle(w http.ResponseWriter, r *http.Request) {
 	var seed int64
 	if k := c13RepIndex(expr); k >= 0 && k < len(live.cs.DelaySeeds) {
 		seed = live.cs.DelaySeeds[k]
+	} else if live.cs.Fault != nil && expr == c13FaultExpr {
+		seed = live.cs.Fault.DelaySeed
 	}
 	delay := c13DelayUs(seed, startMs, live.cs.MaxDelayUs)
+
+	// the timestamps this request asks to evaluate
+	var pts []int64
+	for t := startMs; t <= endMs; t += stepMs {
+		pts = append(pts, t)
+	}
 
 	live.mu.Lock()
 	live.seq++
 	arrive := live.seq
+	fault := live.faultFor(expr, startMs, endMs)
+	if fault != "" {
+		// Logged on arrival: the oracle must know the slice was asked for even
+		// though no answer will leave. Its timestamps are part of the grid one
+		// unsliced evaluation would cover.
+		lg := live.rep(expr)
+		lg.Reqs = append(lg.Reqs, c13Req{StartMs: startMs, EndMs: endMs, StepMs: stepMs, Arrive: arrive, Done: arrive, Points: len(pts), Fault: fault})
+		lg.Evaluated = append(lg.Evaluated, pts...)
+	}
 	live.mu.Unlock()
+
+	if fault != "" && fault != "http200-truncated" {
+		c13ServeFault(w, r, live, fault, startMs, nil)
+		return
+	}
 
 	if delay > 0 {
 		time.Sleep(time.Duration(delay) * time.Microsecond)
 	}
 
 	// evaluate
-	var pts []int64
-	for t := startMs; t <= endMs; t += stepMs {
-		pts = append(pts, t)
-	}
 	buf := make([]byte, 0, 256+len(pts)*24)
 	buf = append(buf, `{"status":"success","data":{"resultType":"matrix","result":[`...)
 	n := len(live.cs.Series)
@@ -329,6 +356,11 @@ func (s *c13Server) handle(w http.ResponseWriter, r *http.Request) {
 	buf = append(buf, `],"stats":{"timings":{"evalTotalTime":0.001,"resultSortTime":0,"queryPreparationTime":0.0001,"innerEvalTime":0.0005,"execQueueTime":0.00001,"execTotalTime":0.001},"samples":{"totalQueryableSamples":`...)
 	buf = strconv.AppendInt(buf, int64(len(pts)), 10)
 	buf = append(buf, `,"peakSamples":1}}}}`...)
+
+	if fault != "" {
+		c13ServeFault(w, r, live, fault, startMs, buf)
+		return
+	}
 
 	// The log entry is complete before the first byte of the answer leaves, so
 	// the client cannot hold a result whose request is not in the log yet.
